@@ -194,6 +194,96 @@ Definition decode_reply (bs : list N) : option (bool * reply) :=
   | None => None
   end.
 
+(* what a client reads first: version (tag 1), packet type (tag 2), then the request id - tag 3 of a
+   ResponsePacket, tag 4 (after the message type, tag 3) of the RequestPacket shape used for TUP - and, for a
+   ResponsePacket, the message type (tag 4) and the return code (tag 5). Member by member, like the generated ReadFrom. *)
+Definition wire_ident (bs : list N) : option (Z * Z * Z) :=
+  match r_int16 1 1 true (skipn 4 bs) with
+  | ROk ver r1 =>
+      match r_int8 1 2 true r1 with
+      | ROk pt r2 =>
+          if (ver =? c_TUPVERSION)%Z then
+            match r_int32 1 3 true r2 with
+            | ROk _ r3 => match r_int32 1 4 true r3 with ROk id _ => Some (ver, pt, id) | _ => None end
+            | _ => None
+            end
+          else match r_int32 1 3 true r2 with ROk id _ => Some (ver, pt, id) | _ => None end
+      | _ => None
+      end
+  | _ => None
+  end.
+
+(* the return code as far as the bytes carry one: None for the TUP shape *)
+Definition wire_ret (bs : list N) : option Z :=
+  match r_int16 1 1 true (skipn 4 bs) with
+  | ROk ver r1 =>
+      if (ver =? c_TUPVERSION)%Z then None else
+      match r_int8 1 2 true r1 with
+      | ROk _ r2 =>
+          match r_int32 1 3 true r2 with
+          | ROk _ r3 => match r_int32 1 4 true r3 with
+                        | ROk _ r4 => match r_int32 1 5 true r4 with ROk ret _ => Some ret | _ => None end
+                        | _ => None end
+          | _ => None
+          end
+      | _ => None
+      end
+  | _ => None
+  end.
+
+(* ---------- schedules: TarsServer.invoke with a handle timeout, as a transition system ----------
+   Three parties: the goroutine that runs Protocol.Invoke (Start = it has decoded the request and stored the
+   packet type in the request's Current; Return = it has assigned rsp and called cancelFunc), the deadline of
+   invokeCtx (Fire), and the handler (Wake = it gets past <-invokeCtx.Done() and picks rsp or, if rsp is still
+   empty, InvokeTimeout(pkg); Write = it reads the packet type from the Current and writes unless one-way).
+   [h_inv] is what Invoke computes for this request (invoke above); the label sequence is the scheduler's choice. *)
+Inductive hlabel := LStart | LReturn | LFire | LWake | LWrite.
+Record hstate := { s_started : bool; s_returned : bool; s_fired : bool;
+                   s_picked : option reply; s_written : option (list reply) }.
+Definition hinit : hstate :=
+  {| s_started := false; s_returned := false; s_fired := false; s_picked := None; s_written := None |}.
+
+Definition hstep (r : request) (p : reply) (s : hstate) (l : hlabel) : option hstate :=
+  match l with
+  | LStart => if s_started s then None else
+      Some {| s_started := true; s_returned := s_returned s; s_fired := s_fired s; s_picked := s_picked s; s_written := s_written s |}
+  | LReturn => if s_started s && negb (s_returned s) then
+      Some {| s_started := true; s_returned := true; s_fired := s_fired s; s_picked := s_picked s; s_written := s_written s |}
+      else None
+  | LFire => if s_fired s then None else
+      Some {| s_started := s_started s; s_returned := s_returned s; s_fired := true; s_picked := s_picked s; s_written := s_written s |}
+  | LWake =>
+      match s_picked s with
+      | Some _ => None
+      | None =>
+          if s_returned s || s_fired s then
+            Some {| s_started := s_started s; s_returned := s_returned s; s_fired := s_fired s;
+                    s_picked := Some (if s_returned s then p else with_ret (base_reply r) 1 timeout_text);
+                    s_written := s_written s |}
+          else None
+      end
+  | LWrite =>
+      match s_picked s, s_written s with
+      | Some x, None =>
+          (* current.GetPacketTypeFromContext: the request's packet type once Invoke has stored it, 0 before *)
+          let pt := if s_started s then q_ptype r else 0%Z in
+          Some {| s_started := s_started s; s_returned := s_returned s; s_fired := s_fired s; s_picked := s_picked s;
+                  s_written := Some (if (pt =? c_TARSONEWAY)%Z then [] else [x]) |}
+      | _, _ => None
+      end
+  end.
+
+Fixpoint hrun_labels (r : request) (p : reply) (s : hstate) (ls : list hlabel) : option hstate :=
+  match ls with
+  | [] => Some s
+  | l :: ls' => match hstep r p s l with Some s' => hrun_labels r p s' ls' | None => None end
+  end.
+
+(* ---------- pipelining: replies of concurrently handled requests reach the socket in any interleaving ---------- *)
+Inductive interleave {A} : list (list A) -> list A -> Prop :=
+| il_nil : forall ls, Forall (fun l => l = []) ls -> interleave ls []
+| il_cons : forall pre x l post out, interleave (pre ++ l :: post) out -> interleave (pre ++ (x :: l) :: post) (x :: out).
+
 (* ---------- correspondence ---------- *)
 (* One case = one scripted connection: configuration, per request (packet bytes, queueing class in ms, what the
    dispatcher was scripted to do), everything the server wrote back (one byte string per reply, any order) and the
